@@ -220,6 +220,11 @@ def _eigsh(
             "exceeds the number of relevant degrees of freedom!"
         )
 
+    if n_eigenvalues == tot_dofs:
+        # Documented: all relevant eigenvalues are computed irrespective of
+        # other stopping criteria (also when resuming).
+        early_stop = False
+
     batch_counter = 0
     if resume_eigenvectors is not None:
         eigenvectors = np.asarray(resume_eigenvectors)
